@@ -22,6 +22,15 @@ def rhe(q):  # round-half-even of a Real term -> Int term
 class Interp:
     def __init__(self, solver_ctx=None):
         self.paths = []   # (path_cond list, result)
+    def run_prefix(self, fn, args, self_obj, n_stmts):
+        """interpret only the first n_stmts statements of fn's body; returns [(path_cond, env)]"""
+        src = textwrap.dedent(inspect.getsource(fn)); tree = ast.parse(src).body[0]
+        params = [a.arg for a in tree.args.args]
+        env = dict(zip(params, [self_obj] + list(args)))
+        env["__globals__"] = fn.__globals__
+        outs = self.block(list(tree.body)[:n_stmts], env, [])
+        return [(pc, x) for kind, pc, x in outs if kind == "fall"]
+
     def run(self, fn, args, self_obj=None):
         src = textwrap.dedent(inspect.getsource(fn)); tree = ast.parse(src).body[0]
         params = [a.arg for a in tree.args.args]
@@ -166,6 +175,8 @@ class Interp:
                 return list({"list": list, "zip": zip, "range": range, "enumerate": enumerate}[n](*args))
             raise Unsupported("call " + n)
         f = self.ev(e.func, env)
+        if getattr(f, "_py2smt_native", False) or getattr(getattr(f, "__func__", None), "_py2smt_native", False):
+            return f(*args)
         if inspect.ismethod(f) and f.__func__.__module__.startswith("geneticengine"):
             sub = Interp().run(f.__func__, args, self_obj=f.__self__)
             if len(sub) != 1: raise Unsupported("forking callee")
